@@ -299,6 +299,118 @@ func init() {
 				viol("C14:per-metric:large-payload", "per-metric", fmt.Sprintf("per-metric totals of a 600 KiB payload: %d keys %v, expected %v", len(got), truncMap(got), per), map[string]interface{}{"payload": "600 KiB, 3 metric names interleaved"})
 			}
 		}
+		// ---- (a3) reloads that change ONLY the metric relabel rules of a job (everything else, also the job's
+		// HTTP client settings, stays): every ordered pair of programs, the same payload before and after, and
+		// back again ------------------------------------------------------------------------------------
+		{
+			var sb strings.Builder
+			for i, smp := range c14Universe {
+				sb.WriteString(smp.line(i))
+			}
+			payload := sb.String()
+			keptBy := func(p c14Prog) int64 {
+				n := int64(0)
+				for _, smp := range c14Universe {
+					if p.keep(smp) {
+						n++
+					}
+				}
+				return n
+			}
+			cfgWith := func(p c14Prog) string {
+				return "scrape_configs:\n- job_name: jx\n  scrape_timeout: 7s\n" + p.yaml + "  static_configs:\n  - targets: [\"x:1\"]\n"
+			}
+			for pi, p := range c14Progs {
+				for qi, q := range c14Progs {
+					idx++
+					if pi == qi || !c.Mine(idx) {
+						continue
+					}
+					scx := newSC()
+					body, fail = []byte(payload), false
+					bad := ""
+					for step, cur := range []c14Prog{p, q, p} {
+						if err := scx.PushConfig(cfgWith(cur)); err != nil {
+							chk.Fatalf("%v", err)
+						}
+						if step == 0 {
+							if err := scx.Update(map[string][]*target.Target{"jx": {c14Target(5, [2]int64{1, 1})}}); err != nil {
+								chk.Fatalf("%v", err)
+							}
+						}
+						// three scrapes so that the mean of the window is the current rules' count
+						for k := 0; k < 3; k++ {
+							scx.Scrape(rig.ProxyURL("jx", 5, "http", "t:80", "/metrics", nil))
+						}
+						st, _ := scx.Status()
+						if e := st[5]; e == nil || e.Series != keptBy(cur) || e.TotalSeries != int64(len(c14Universe)) {
+							got := int64(-1)
+							if e != nil {
+								got = e.Series
+							}
+							bad = fmt.Sprintf("rules %q -> %q -> %q, step %d: series %d after three scrapes, the job's current rules (%s) keep %d of %d samples", p.name, q.name, p.name, step, got, cur.name, keptBy(cur), len(c14Universe))
+							break
+						}
+					}
+					r.States++
+					r.Transitions += 9
+					if bad != "" {
+						viol("C14:kept:after-reload-of-metric-relabel-rules", "kept-after-relabel", bad, map[string]interface{}{"payload": payload, "rules": []string{p.name, q.name, p.name}})
+					}
+				}
+			}
+			sc = newSC()
+		}
+		// ---- (a4) two targets of one job exposing the same metric names: the per-metric view is the sum over the
+		// targets, and asking for it (repeatedly) changes nothing ----------------------------------------------
+		if c.Part == 0 {
+			idx++
+			scx := newSC()
+			_ = scx.Update(map[string][]*target.Target{"jr0": {c14Target(21, [2]int64{1, 1}), c14Target(22, [2]int64{1, 1}), c14Target(23, [2]int64{1, 1})}})
+			want := map[string]float64{}
+			for ti, h := range []uint64{21, 22, 23} {
+				var sb strings.Builder
+				for i, smp := range c14Universe[:3+3*ti] {
+					sb.WriteString(smp.line(i))
+					want[smp.Name]++
+				}
+				body, fail = []byte(sb.String()), false
+				scx.Scrape(rig.ProxyURL("jr0", h, "http", "t:80", "/metrics", nil))
+			}
+			type view = map[string]struct {
+				Total        float64 `json:"total"`
+				ScrapedTotal float64 `json:"scrapedTotal"`
+				MetricsTotal map[string]struct {
+					Total   float64 `json:"total"`
+					Scraped float64 `json:"scraped"`
+				} `json:"metricsTotal"`
+			}
+			first := ""
+			for k := 0; k < 4; k++ {
+				var v view
+				if err := scx.APIGet("/api/v1/shard/samples/?with_metrics_detail=true&job=jr0", &v); err != nil {
+					viol("C14:samples-api", "per-metric", err.Error(), nil)
+					break
+				}
+				got := map[string]float64{}
+				for n, m := range v["jr0"].MetricsTotal {
+					got[n] = m.Total
+				}
+				r.States++
+				r.Transitions++
+				if chk.JSON(got) != chk.JSON(want) {
+					viol("C14:per-metric:several-targets", "per-metric", fmt.Sprintf("query %d of the per-metric view of a job with three targets: %v, the payloads hold %v", k+1, got, want), map[string]interface{}{"targets": 3, "query": k + 1})
+					break
+				}
+				if first == "" {
+					first = chk.JSON(v)
+				} else if chk.JSON(v) != first {
+					viol("C14:per-metric:view-not-idempotent", "per-metric", fmt.Sprintf("query %d of the per-metric view differs from the first although nothing was scraped in between", k+1), map[string]interface{}{"targets": 3, "query": k + 1})
+					break
+				}
+			}
+			sc = newSC()
+		}
 		// ---- (b) result sequences for two targets, interleaved with updates ---------------------
 		type ev struct {
 			Kind string `json:"kind"` // s = scrape, u = update
